@@ -14,13 +14,21 @@ inductive DigitsAcc (base : Nat) : Nat → Str → Nat → Prop where
   | digit {acc : Nat} {c : Char} {d : Nat} {cs : Str} {n : Nat} : digVal base c = some d → DigitsAcc base (acc * base + d) cs n → DigitsAcc base acc (c :: cs) n
   | under {acc : Nat} {c : Char} {d : Nat} {cs : Str} {n : Nat} : digVal base c = some d → DigitsAcc base (acc * base + d) cs n → DigitsAcc base acc ('_' :: c :: cs) n
 
+/-- no blank of `wsCodes` lies in a block of decimal digits (generated table, decided) -/
+theorem uniDec_ws : ∀ n ∈ wsCodes, uniDec n = none := by decide
+
+theorem uniDec_ascii_punct : uniDec 95 = none ∧ uniDec 45 = none ∧ uniDec 43 = none ∧ uniDec 92 = none := by decide
+
 theorem digVal_underscore (base : Nat) : digVal base '_' = none := by
-  simp [digVal, Str.hexVal]
+  simp [digVal, Str.hexVal, uniDec_ascii_punct.1]
 
 theorem ws_not_digit {c : Char} (h : isWs c = true) (base : Nat) : digVal base c = none := by
+  have hu : uniDec c.toNat = none := uniDec_ws _ (by simpa [isWs] using h)
   simp only [isWs, wsCodes, List.contains_cons, List.contains_nil, Bool.or_false, Bool.or_eq_true, beq_iff_eq] at h
-  rcases h with h | h | h | h | h | h | h | h | h | h | h | h | h | h | h | h | h | h | h | h | h | h | h | h | h <;>
-    simp [digVal, Str.hexVal, h]
+  have hh : Str.hexVal c = none := by
+    rcases h with h | h | h | h | h | h | h | h | h | h | h | h | h | h | h | h | h | h | h | h | h | h | h | h | h <;>
+      simp [Str.hexVal, h]
+  simp [digVal, hh, hu]
 
 theorem goDigits_complete {base acc : Nat} {ds : Str} {n : Nat} (h : DigitsAcc base acc ds n) (r : Str) (hr : r.all isWs = true) :
     goDigits base acc (ds ++ r) = some n := by
@@ -105,7 +113,7 @@ theorem digit_not_ws {c : Char} {d base : Nat} (h : digVal base c = some d) : is
   | true => rw [ws_not_digit hw base] at h; cases h
 
 theorem digit_not_sign {c : Char} {d base : Nat} (h : digVal base c = some d) : c ≠ '-' ∧ c ≠ '+' := by
-  constructor <;> (intro hc; subst hc; simp [digVal, Str.hexVal] at h)
+  constructor <;> (intro hc; subst hc; simp [digVal, Str.hexVal, uniDec_ascii_punct.2.1, uniDec_ascii_punct.2.2.1] at h)
 
 theorem pyInt_complete {s : Str} {n : Int} (h : IntText s n) : pyInt 10 s = .ok n := by
   obtain ⟨l, sg, c, d, ds, r, m, rfl, hl, hr, hsg, hd, hds, rfl⟩ := h
@@ -199,7 +207,7 @@ theorem ws_no_bs {l : Str} (h : l.all isWs = true) : l.contains '\\' = false := 
     exact contains_cons_false hc (ih h.2)
 
 theorem digit_ne_bs {c : Char} {d base : Nat} (h : digVal base c = some d) : c ≠ '\\' := by
-  intro hc; subst hc; simp [digVal, Str.hexVal] at h
+  intro hc; subst hc; simp [digVal, Str.hexVal, uniDec_ascii_punct.2.2.2] at h
 
 theorem digitsAcc_no_bs {base acc : Nat} {ds : Str} {n : Nat} (h : DigitsAcc base acc ds n) : ds.contains '\\' = false := by
   induction h with
